@@ -524,6 +524,18 @@ func (a *CallNode) FindArg(v ssa.Value) *CallNodeArg {
 	return nil
 }
 
+// FindArgs returns all the arguments of the call whose value is v: the same value can be passed in several positions
+// of the same call (for example f(x, x)).
+func (a *CallNode) FindArgs(v ssa.Value) []*CallNodeArg {
+	var args []*CallNodeArg
+	for _, argNode := range a.args {
+		if argNode.ssaValue == v {
+			args = append(args, argNode)
+		}
+	}
+	return args
+}
+
 // CallSite returns the call instruction corresponding to the call node
 func (a *CallNode) CallSite() ssa.CallInstruction {
 	return a.callSite
